@@ -11,6 +11,8 @@
      C11_emit_transparent_pair   same for a paired move when either half is outside the mask
      C11_stop_preserved      the raw event that stops the emitter is always sent
      C11_emit_stream         the two lemmas lifted to streams of single raw events
+     C11_mask_move_whole     the mask never contains one half of IN_MOVE without the other
+     C11_item_stream         ... and to streams of items (singles and paired moves) as handed over under the mask
      C11_table_refuted_pinned    the table of the pinned tree (finding F6)
    What is NOT proved: C11_full, the statement over whole operation histories.  It needs the kernel,
    reader (watch bookkeeping, pairing through the delay queue) and skip-repeats-queue models that are
@@ -96,6 +98,33 @@ Theorem C11_emit_stream : forall F full_events recursive watch_path content (rs 
 Proof. exact emit_stream. Qed.
 Print Assumptions C11_emit_stream.
 
+(* The mask never splits a move: IN_MOVED_FROM is asked for exactly when IN_MOVED_TO is. *)
+Theorem C11_mask_move_whole : forall recursive F,
+  flag_set IN_MOVED_FROM (mask_of_filter recursive F) = flag_set IN_MOVED_TO (mask_of_filter recursive F).
+Proof. exact mask_move_whole. Qed.
+Print Assumptions C11_mask_move_whole.
+
+(* Streams of items (single events and paired moves).  [handed_over M it] is what the buffer of a watch
+   with kernel mask M hands to its emitter in place of the item [it] of the unfiltered watch (same paths,
+   same view of the tree): undelivered singles vanish, a pair with one half outside M would arrive as
+   the other half alone.  The filtered watch queues exactly the accepted part. *)
+Theorem C11_item_stream : forall F full_events recursive watch_path content (its : list item),
+  flat_map (fun it => fst (emit_filtered F full_events recursive watch_path content it))
+           (flat_map (handed_over (effective_mask (mask_of_filter recursive F))) its)
+  = filter (fun ev => accepts F (ev_cls ev))
+           (flat_map (fun it => fst (emit full_events recursive watch_path content it)) its).
+Proof. exact emit_item_stream. Qed.
+Print Assumptions C11_item_stream.
+
+Theorem C11_item_stream_refuted_pinned :
+  exists F full_events recursive watch_path content its,
+    flat_map (fun it => fst (emit_filtered F full_events recursive watch_path content it))
+             (flat_map (handed_over (effective_mask (mask_of_filter_pinned recursive F))) its)
+    <> filter (fun ev => accepts F (ev_cls ev))
+              (flat_map (fun it => fst (emit full_events recursive watch_path content it)) its).
+Proof. exact emit_item_stream_refuted_pinned. Qed.
+Print Assumptions C11_item_stream_refuted_pinned.
+
 (* The table of the pinned tree (frozen copy): the table lemma is false.  Finding F6. *)
 Theorem C11_table_refuted_pinned :
   exists F recursive b, In b (needed_for F recursive) /\ flag_set b (mask_of_filter_pinned recursive F) = false.
@@ -169,3 +198,16 @@ Example C11_pair_nonvacuous :
                     (probe_raw (N.lor IN_MOVED_TO IN_ISDIR) probe_entry2))))
   = [(DirMoved, false); (DirModified, false); (DirModified, false); (DirMoved, true); (FileMoved, true)].
 Proof. vm_compute. reflexivity. Qed.
+
+(* the item-stream theorem on a stream with a pair that is kept and a pair that is dropped *)
+Example C11_item_stream_nonvacuous :
+  let pr := Pair (probe_raw IN_MOVED_FROM probe_entry) (probe_raw IN_MOVED_TO probe_entry2) in
+  let its := [pr; Single (probe_raw IN_OPEN probe_entry)] in
+  (* [FileMovedEvent]: the pair is handed over, the open is not *)
+  flat_map (handed_over (effective_mask (mask_of_filter false (Some [Concrete FileMoved])))) its = [pr] /\
+  map ev_cls (flat_map (fun it => fst (emit_filtered (Some [Concrete FileMoved]) false false probe_root (fun _ => probe_tree) it)) [pr])
+    = [FileMoved] /\
+  (* [FileOpenedEvent]: the pair is dropped as a whole *)
+  flat_map (handed_over (effective_mask (mask_of_filter false (Some [Concrete FileOpened])))) its
+    = [Single (probe_raw IN_OPEN probe_entry)].
+Proof. vm_compute. repeat split. Qed.
